@@ -29,11 +29,18 @@ def fault_hook(ex):
         st['fired'] = (n, kind, e, which)
         if which == 0:
             return mkerr('driver', 'driver: bad connection')
-        # request cancelled: database/sql rolls the transaction back itself, a later Rollback reports ErrTxDone
-        if tx is not None and kind != 'COMMIT':
+        # request cancelled: ctx.Err() is Canceled from now on and database/sql rolls the transaction back by itself, so that a
+        # later Commit / Rollback reports sql.ErrTxDone; a statement in flight reports the context error
+        canceled = ex_.load(ex_.global_ptr('context.Canceled', '*error'))
+        ex_.env['ctx_err'] = lambda e, c: canceled
+        if tx is not None:
             tx.db.restore(tx.snap)
+            if kind == 'COMMIT':
+                # cancelled between the last statement and COMMIT: the commit finds the transaction already finished
+                tx.state = 'failed-commit'
+                return reldb.sql_err_txdone(ex_)
             tx.state = 'rolledback'
-        return ex_.load(ex_.global_ptr('context.Canceled', '*error'))
+        return canceled
     return h
 
 
